@@ -524,6 +524,328 @@ def oracle_c07(cases, seed, thorough):
     return fails, n
 
 
+def all_attr_lists(it):
+    yield it.attrs
+    for f in it.fields:
+        yield f.attrs
+    for v in it.variants:
+        yield v.attrs
+        for f in v.fields:
+            yield f.attrs
+
+
+def oracle_c10(cases, seed, thorough):
+    """(a) no `~` / `@` punctuation survives in the output of items without pattern/literal instructions;
+       (b) metamorphic pass-through: inserting one opaque marker token anywhere inside a user expression changes the
+           output by exactly that token, at every place the expression is used."""
+    fails = []
+    r = random.Random(seed + 10)
+    items = []
+    for k, prof in enumerate(["expr", "struct-flat", "enum", "trait-params"]):
+        items += gen.gen_items(prof, seed * 1000 + 300 + k, 200 if not thorough else 2500)
+    items = [it for it in items if not any(a.name in ("pattern", "literal") for al in all_attr_lists(it) for a in al)]
+    base = [(it.meta["id"], gen.render(it)) for it in items]
+    outs = expand("s1", base)
+    n = 0
+    marked = []
+    for it, (i, s) in zip(items, base):
+        o = outs[i]
+        if o[0] != "OK":
+            continue
+        n += 1
+        toks = o[1].split()
+        left = [t for t in toks if t in ("p~", "j~", "p@", "j@")]
+        if left:
+            fails.append({"source": s, "what": "a placeholder (`~` or `@`) is left in the generated code"})
+            continue
+        # (b) plant a marker inside one expression-carrying instruction
+        cands = [(al, k) for al in all_attr_lists(it) for k, a in enumerate(al)
+                 if a.args and re.search(r"[~@{]", a.args) and a.name not in ("child_parents", "where_clause", "type_hint", "repeat", "child", "parent", "as_type")]
+        if not cands:
+            continue
+        it2 = copy.deepcopy(it)
+        lists2 = list(all_attr_lists(it2))
+        lists1 = list(all_attr_lists(it))
+        al, k = r.choice(cands)
+        idx = next(n2 for n2, l in enumerate(lists1) if l is al)
+        a2 = lists2[idx][k]
+        # insert after a `~`, `@` or `{` occurrence (never inside a string / char literal: our catalogue keeps those short)
+        pos = [m.end() for m in re.finditer(r"[~@{(]", a2.args) if not re.search(r"[\"']", a2.args[max(0, m.start() - 2):m.end() + 2])]
+        if not pos:
+            continue
+        q = r.choice(pos)
+        a2.args = a2.args[:q] + " zq9mark " + a2.args[q:]
+        marked.append((i, s, gen.render(it2)))
+    outs2 = expand("s1", [(i, s2) for i, _, s2 in marked])
+    for i, s, s2 in marked:
+        a, b = outs[i], outs2[i]
+        if b[0] != "OK":
+            # the marker may turn a member name / path into an expression and be (rightly) rejected: not a pass-through case
+            continue
+        stripped = " ".join(t for t in b[1].split() if t != "izq9mark")
+        if stripped != a[1]:
+            fails.append({"source": s2, "what": "an extra token inside a user expression changes the generated code by more than that token",
+                          "detail": {"without_marker": s}})
+    return fails, n
+
+
+def requested_kinds(it):
+    """{counterpart: set of (basic kind, fallible)} requested by the trait instructions"""
+    req = collections.defaultdict(set)
+    for a in it.attrs:
+        if a.tag and a.tag[0] == "trait":
+            ks, f = gen.kinds_of(a.name)
+            for k in ks:
+                req[a.tag[1]].add((k, f))
+    return req
+
+
+def oracle_c05(cases, seed, thorough):
+    """non-interference: adding a member instruction whose kinds are requested by no trait instruction (directly or
+    through the into_existing -> into / fallible -> infallible fallbacks) must leave the expansion unchanged"""
+    fails = []
+    r = random.Random(seed + 5)
+    items = []
+    for k, prof in enumerate(["member-instrs", "struct-flat", "multi-counterpart"]):
+        items += gen.gen_items(prof, seed * 1000 + 350 + k, 250 if not thorough else 3000)
+    items = [it for it in items if it.kind == "struct" and it.fields]
+    pairs = []
+    for it in items:
+        req = requested_kinds(it)
+        allreq = set().union(*req.values()) if req else set()
+        used_basic = {k for k, _ in allreq}
+        # kinds reachable through fallbacks
+        reach = set(used_basic)
+        if "owned_into_existing" in used_basic:
+            reach.add("owned_into")
+        if "ref_into_existing" in used_basic:
+            reach.add("ref_into")
+        free = [k for k in gen.MAP6 if k not in reach]
+        if not free:
+            continue
+        it2 = copy.deepcopy(it)
+        f = r.choice(it2.fields)
+        nm = r.choice(free)
+        if r.random() < 0.3 and "existing" not in nm:
+            nm = gen.try_name(nm)
+        f.attrs.insert(r.randrange(len(f.attrs) + 1), gen.Instr(nm, r.choice(["zz_unused", "zz_unused, ~.clone()", "{ unused() }"]), tag=("mmap", None)))
+        pairs.append((it.meta["id"], gen.render(it), gen.render(it2)))
+    a = expand("s1", [(i, s) for i, s, _ in pairs])
+    b = expand("s1", [(i, s2) for i, _, s2 in pairs])
+    n = 0
+    for i, s, s2 in pairs:
+        if a[i][0] != "OK":
+            continue
+        n += 1
+        if a[i] != b[i]:
+            fails.append({"source": s2, "what": "a member instruction that applies to no requested conversion changes the expansion", "detail": {"without": s}})
+    return fails, n
+
+
+FAULTS = [
+    ("no-trait-instr", "At least one trait instruction is expected."),
+    ("dup-instr", "Ident here must be unique."),
+    ("missing-err", "Error type should be specified for fallible instruction."),
+    ("extra-err", "Error type should not be specified for infallible instruction."),
+    ("unknown-cpart-where", "doesn't match any type specified in trait instructions."),
+    ("unknown-cpart-member", "doesn't match any type specified in trait instructions."),
+    ("dup-default-where", "There can be at most one default #[where_clause(...)] instruction."),
+    ("dup-default-ghosts", "There can be at most one default #[ghosts(...)] instruction."),
+    ("misplaced-member", "should be used on a member."),
+    ("misnamed-type", "Perhaps you meant 'ghosts'?"),
+    ("misplaced-type", "should be used on a struct."),
+    ("unknown-own", "is not supported."),
+    ("ghost-no-default", "should provide default value for type"),
+    ("child-no-parents", "Missing #[child_parents(...)] instruction for"),
+]
+
+
+def inject_fault(it, kind, r):
+    it2 = copy.deepcopy(it)
+    traits = [a for a in it2.attrs if a.tag and a.tag[0] == "trait"]
+    if kind == "no-trait-instr":
+        it2.attrs = [a for a in it2.attrs if not (a.tag and a.tag[0] == "trait")]
+    elif kind == "dup-instr":
+        if not traits:
+            return None
+        t = r.choice(traits)
+        head = t.args.split("|", 1)[0].strip()
+        it2.attrs.insert(r.randrange(len(it2.attrs) + 1), gen.Instr(t.name, head, tag=t.tag))
+    elif kind == "missing-err":
+        c = "Zq1"
+        it2.attrs.insert(r.randrange(len(it2.attrs) + 1), gen.Instr(r.choice(gen.TRY12), c, tag=("trait", c)))
+    elif kind == "extra-err":
+        c = "Zq2"
+        it2.attrs.insert(r.randrange(len(it2.attrs) + 1), gen.Instr(r.choice(gen.MAP12), c + ", SomeErr", tag=("trait", c)))
+    elif kind == "unknown-cpart-where":
+        it2.attrs.insert(r.randrange(len(it2.attrs) + 1), gen.Instr("where_clause", "NoSuchType| T: Clone"))
+    elif kind == "unknown-cpart-member":
+        tgt = [f for f in it2.fields] + [f for v in it2.variants for f in v.fields]
+        if not tgt:
+            return None
+        f = r.choice(tgt)
+        f.attrs.insert(r.randrange(len(f.attrs) + 1), gen.Instr(r.choice(["map", "from", "into", "ghost"]), "NoSuchType| zz"))
+    elif kind == "dup-default-where":
+        it2.attrs = [a for a in it2.attrs if a.name != "where_clause"]
+        for _ in range(2):
+            it2.attrs.insert(r.randrange(len(it2.attrs) + 1), gen.Instr("where_clause", "T: Clone"))
+    elif kind == "dup-default-ghosts":
+        it2.attrs = [a for a in it2.attrs if not a.name.startswith("ghosts")]
+        g = "zq: { 1 }" if it2.kind == "struct" else "Zq: { todo!() }"
+        for _ in range(2):
+            it2.attrs.insert(r.randrange(len(it2.attrs) + 1), gen.Instr("ghosts", g))
+    elif kind == "misplaced-member":
+        it2.attrs.insert(r.randrange(len(it2.attrs) + 1), gen.Instr(r.choice(["literal", "pattern", "type_hint", "repeat", "stop_repeat"]), None))
+        if it2.attrs and it2.attrs[-1].name in ("repeat", "stop_repeat"):
+            pass
+    elif kind == "misnamed-type":
+        it2.attrs.insert(r.randrange(len(it2.attrs) + 1), gen.Instr("ghost", "zq: { 1 }"))
+    elif kind == "misplaced-type":
+        tgt = [f for f in it2.fields] + [v for v in it2.variants]
+        if not tgt:
+            return None
+        f = r.choice(tgt)
+        f.attrs.insert(r.randrange(len(f.attrs) + 1), gen.Instr("where_clause", "T: Clone"))
+    elif kind == "unknown-own":
+        tgt = [it2] + [f for f in it2.fields] + [v for v in it2.variants]
+        t = r.choice(tgt)
+        t.attrs.insert(r.randrange(len(t.attrs) + 1), gen.Instr("zq_unknown_instr", None))
+    elif kind == "ghost-no-default":
+        if it2.kind != "struct" or not it2.fields:
+            return None
+        c = "Zq3"
+        it2.attrs.insert(r.randrange(len(it2.attrs) + 1), gen.Instr("from_owned", c, tag=("trait", c)))
+        f = r.choice(it2.fields)
+        f.attrs = [a for a in f.attrs if not a.name.startswith("ghost")]
+        f.attrs.insert(r.randrange(len(f.attrs) + 1), gen.Instr("ghost", None))
+    elif kind == "child-no-parents":
+        if it2.kind != "struct" or not it2.fields:
+            return None
+        c = "Zq4"
+        it2.attrs = [a for a in it2.attrs if a.name != "child_parents"]
+        it2.attrs.insert(r.randrange(len(it2.attrs) + 1), gen.Instr("owned_into", c, tag=("trait", c)))
+        f = r.choice(it2.fields)
+        f.attrs = [a for a in f.attrs if a.name not in ("child", "parent") and not a.name.startswith("ghost")]
+        f.attrs.insert(r.randrange(len(f.attrs) + 1), gen.Instr("child", "zq_base"))
+    return it2
+
+
+def oracle_c15(cases, seed, thorough):
+    """fault injection: a documented misuse injected at a random position into an input that the derive parses must be
+    rejected with the rule's message; two injected faults must both be reported"""
+    fails = []
+    r = random.Random(seed + 15)
+    items = []
+    for k, prof in enumerate(["struct-flat", "enum", "traits", "tree"]):
+        items += gen.gen_items(prof, seed * 1000 + 400 + k, 200 if not thorough else 2500)
+    base = [(it.meta["id"], gen.render(it)) for it in items]
+    outs = expand("s1", base)
+    faulty = []
+    for it, (i, s) in zip(items, base):
+        if outs[i][0] not in ("OK", "ERR"):
+            continue  # parse-stage (library) rejection or panic: validation is never reached
+        ks = r.sample(FAULTS, 2) if r.random() < 0.3 else [r.choice(FAULTS)]
+        # faults that delete instructions go first so that they cannot delete another injected fault
+        removers = ("no-trait-instr", "dup-default-where", "dup-default-ghosts", "ghost-no-default", "child-no-parents")
+        ks.sort(key=lambda k: 0 if k[0] in removers else 1)
+        names2 = [k[0] for k in ks]
+        if len(ks) == 2 and "no-trait-instr" in names2 and any(x in ("dup-instr", "missing-err", "extra-err", "ghost-no-default", "child-no-parents") for x in names2):
+            ks = [k for k in ks if k[0] == "no-trait-instr"]
+        if len(ks) == 2 and {ks[0][0], ks[1][0]} == {"dup-default-where", "unknown-cpart-where"}:
+            ks = ks[:1]
+        it2 = it
+        ok = True
+        for kind, _ in ks:
+            it2 = inject_fault(it2, kind, r)
+            if it2 is None:
+                ok = False
+                break
+        if ok:
+            faulty.append((i, gen.render(it2, gen.speller(r) if r.random() < 0.3 else None), ks, s))
+    outs2 = expand("s1", [(i, s2) for i, s2, _, _ in faulty])
+    n = 0
+    for i, s2, ks, s in faulty:
+        o = outs2[i]
+        if o[0] in ("LIBERR", "PANIC"):
+            continue
+        if o[0] == "ERR" and len(o[1]) == 1:
+            continue  # a parse-stage o2o diagnostic (single message) pre-empts validation: known limitation, see KNOWN_FINDINGS C15-parse-stage
+        n += 1
+        msgs = o[1] if o[0] == "ERR" else ()
+        for kind, text in ks:
+            if not any(text in m for m in msgs):
+                fails.append({"source": s2, "what": f"injected misuse `{kind}` is not reported (expected a diagnostic containing: {text})",
+                              "detail": {"before_injection": s, "outcome": str(o)[:600]}, "shrinkable": False})
+                break
+    return fails, n
+
+
+CATEGORY = {"child": "child", "parent": "parent", "ghost": "ghost", "ghost_owned": "ghost", "ghost_ref": "ghost", "type_hint": "type_hint"}
+
+
+def category_of(a):
+    if a.name in CATEGORY:
+        return CATEGORY[a.name]
+    if a.name in gen.ALL24 or a.name == "as_type":
+        return "map"
+    return None
+
+
+def write_out_members(members):
+    """documented meaning of member-level repeat for one struct / one variant payload (non-permeating)"""
+    out = []
+    active = None  # (instructions to copy)
+    for m in members:
+        names = [a.name for a in m.attrs]
+        own = [a for a in m.attrs if a.name not in ("repeat", "skip_repeat", "stop_repeat")]
+        if "stop_repeat" in names:
+            active = None
+        if "repeat" in names:
+            rep = next(a for a in m.attrs if a.name == "repeat")
+            cats = [c.strip() for c in (rep.args or "").split(",") if c.strip()]
+            if any(c.startswith("permeate") for c in cats):
+                return None
+            if active is not None and "stop_repeat" not in names:
+                return None  # unterminated: rejected by the derive
+            cats = cats or ["map", "child", "parent", "ghost", "type_hint"]
+            active = [a for a in own if category_of(a) in cats]
+            out.append(own)
+        elif active is not None and "skip_repeat" not in names:
+            out.append(own + copy.deepcopy(active))
+        else:
+            out.append(own)
+    return out
+
+
+def oracle_c14(cases, seed, thorough):
+    fails = []
+    items = gen.gen_items("repeat", seed * 1000 + 450, 500 if not thorough else 6000)
+    pairs = []
+    for it in items:
+        if it.kind != "struct" or not any(a.name in ("repeat", "skip_repeat", "stop_repeat") for f in it.fields for a in f.attrs):
+            continue
+        if any(a.name == "as_type" for f in it.fields for a in f.attrs):
+            continue  # a repeated as_type keeps the origin member's type in its cast: documented exception
+        w = write_out_members(it.fields)
+        if w is None:
+            continue
+        it2 = copy.deepcopy(it)
+        for f, attrs in zip(it2.fields, w):
+            f.attrs = attrs
+        # trait-level repeat params are not touched
+        pairs.append((it.meta["id"], gen.render(it), gen.render(it2)))
+    a = expand("s1", [(i, s) for i, s, _ in pairs])
+    b = expand("s1", [(i, s2) for i, _, s2 in pairs])
+    n = 0
+    for i, s, s2 in pairs:
+        if a[i][0] in ("LIBERR", "PANIC") or b[i][0] in ("LIBERR", "PANIC"):
+            continue
+        n += 1
+        if a[i] != b[i]:
+            fails.append({"source": s, "what": "member-level repeat differs from its written-out form", "detail": {"written_out": s2, "a": str(a[i])[:300], "b": str(b[i])[:300]}})
+    return fails, n
+
+
 def run_oracle(prop, cases, results, seed, thorough, disagreements):
     out = {"name": None, "evaluated": 0, "failures": []}
     try:
@@ -548,6 +870,18 @@ def run_oracle(prop, cases, results, seed, thorough, disagreements):
         elif prop == "C06":
             out["name"] = "metamorphic: projection onto one counterpart on the real derive"
             out["failures"], out["evaluated"] = oracle_c06(cases, results, seed, thorough)
+        elif prop == "C10":
+            out["name"] = "no placeholder left + metamorphic marker-token pass-through on the real derive"
+            out["failures"], out["evaluated"] = oracle_c10(cases, seed, thorough)
+        elif prop == "C05":
+            out["name"] = "metamorphic: adding an instruction for a kind nobody requested leaves the real expansion unchanged"
+            out["failures"], out["evaluated"] = oracle_c05(cases, seed, thorough)
+        elif prop == "C15":
+            out["name"] = "fault injection (14 documented misuse classes, single and paired, random position and spelling) on the real derive"
+            out["failures"], out["evaluated"] = oracle_c15(cases, seed, thorough)
+        elif prop == "C14":
+            out["name"] = "metamorphic: member-level repeat vs the harness's own written-out form on the real derive"
+            out["failures"], out["evaluated"] = oracle_c14(cases, seed, thorough)
         elif prop == "C17":
             out["name"] = "syn-2 `File` parse + shape inspection of the real output of every accepted case"
             out["failures"], out["evaluated"] = oracle_c17(cases, seed, thorough)
